@@ -177,6 +177,13 @@ Proof.
   - vm_compute. intros d j H. repeat (destruct H as [H|H]; [inversion H; reflexivity|]). destruct H.
 Qed.
 
+(* ---- app stage: the executable judgement of coq/Check is sound for the model on every scenario of the profile, and transfers
+   to every trace that agrees with the model's run ---- *)
+From BEI Require Check.C17c Proofs.JudgeC17P.
+Theorem C17_app_judgement_sound : forall mc, JudgeC17P.profile_C17b mc = true -> C17c.ok (mc, JudgeC17P.model_out mc) = 0%Z.
+Proof. exact JudgeC17P.C17_app_judgement_sound. Qed.
+
+
 Print Assumptions C17_cequiv_refl.
 Print Assumptions C17_cequiv_sym.
 Print Assumptions C17_cequiv_trans.
@@ -205,3 +212,4 @@ Print Assumptions C17_unbound_motion.
 Print Assumptions C17_unbound_wheel.
 Print Assumptions C17_unbound_gamepads.
 Print Assumptions C17_deterministic.
+Print Assumptions C17_app_judgement_sound.
